@@ -1160,6 +1160,13 @@ def check_stanag_flip(args):
             return "flipping bit %d of metadata byte %d of a STANAG 4609 packet goes unreported" % (bit, i - (len(b) - 36))
     return None
 
+def _safe(fn, args):
+    """an oracle that trips over bytes it cannot even parse has found a failing input too"""
+    try:
+        return fn(args)
+    except Exception as e:
+        return "%s: the emitted bytes cannot be analysed (%r)" % (fn.__name__, e)
+
 ORACLES.update({"mpeg_pmt_crc": check_pmt_crc, "mpeg_crc_fn": check_crc_fn, "mpeg_pmt_flip": check_pmt_flip,
                 "mpeg_stanag_sum": check_stanag_sum, "mpeg_sum_fn": check_sum_fn, "mpeg_stanag_flip": check_stanag_flip})
 
@@ -1167,7 +1174,7 @@ def _first(fails, name, cls, check, fn, argss, ctx):
     k = 0
     for args in argss:
         k += 1
-        w = fn(args)
+        w = _safe(fn, args)
         if w:
             fails.append(Failure(name, args, w, {"class": cls, "check": check}))
             break
@@ -1286,7 +1293,7 @@ def oracles_C09(ctx, hints):
     for cls, b in _c09_buffers(ctx):
         n += 1
         args = {"cls": cls, "buf": b.hex()}
-        w = check_mpeg_accept(args)
+        w = _safe(check_mpeg_accept, args)
         if w and cls not in seen:
             seen.add(cls)
             fails.append(Failure("mpeg_accept", args, w, {"class": cls, "check": "accept_exact"}))
@@ -1356,7 +1363,7 @@ def oracles_C15(ctx, hints):
     for i in range(0, len(t), 500):
         args = {"ticks": t[i:i + 500]}
         n += len(args["ticks"])
-        w = check_pts(args)
+        w = _safe(check_pts, args)
         if w:
             # shrink to the single failing tick for the replay
             for p in args["ticks"]:
